@@ -8,6 +8,7 @@ CONSTANTS
   MaxCfg = 3
   MaxParse = 2
   Family = "c15"
+  Reconfigure = TRUE
   Emit = TRUE
 INVARIANTS
   Inv_ExpectIff
